@@ -75,6 +75,9 @@ def main(tier):
     chk.rule("PS-1", "sibling pool code is a consistent renaming", floor=300)
     chk.rule("PS-2", "Ironwood code equals its Orchard sibling up to the pool renaming", floor=80)
     chk.rule("PS-3", "pool-tagged arguments bind the same pool's parameters", floor=10)
+    chk.rule("NOGROW", "the step's input lists are replaced by query results, never grown", floor=1)
+    chk.rule("LOCKEXP", "input locks expire at the target height plus the requested window", floor=4)
+    chk.rule("ALIAS", "a derived SQL column is defined by the same expression in every query", floor=1)
     chk.rule("CONF", "the send-max query cannot return a note that lacks the policy's confirmations",
              floor=1)
     chk.rule("ANCHOR", "anchor and confirmations policy given to the selector are one policy's", floor=2)
@@ -134,6 +137,9 @@ def main(tier):
     lock(chk, w)
     chk.analysed["lock_filter_sites"] = lock_filter(chk, w)
     confirmations(chk, w)
+    lock_expiry(chk, w)
+    no_growth(chk, w)
+    sql_alias_siblings(chk, w)
     chk.analysed["selector_calls"] = anchor_policy(chk, w)
     chk.ok("control", "Step::from_parts has %d rejection kinds and %d success site(s)"
            % (len(STEP_REJECTIONS), len(succ))) if succ else \
@@ -295,6 +301,120 @@ def _ref_local(body, du, op):
             continue
         return None
     return None
+
+
+def lock_expiry(chk, w):
+    """LOCKEXP: a proposal's inputs are locked "until target_height + request.for_blocks()" - the height the
+    proposal is built for, not the (older) anchor height: an expiry counted from the anchor lapses at least
+    the confirmation depth early, and with a short window the lock is never in force, so a concurrent
+    proposal selects the same notes. Type-resolved: the expiry handed to lock_proposal_inputs is the result
+    of `TargetHeight + blocks`."""
+    n = 0
+    for f in sorted(w.fns.values(), key=lambda f: f.p):
+        if f.crate.name != "zcash_client_backend" or f.body is None or "::tests" in f.p or "::testing" in f.p:
+            continue
+        b = f.body
+        du = None
+        for bb, t in b.calls():
+            if b.blocks[bb].cleanup or t.callee.indirect is not None or \
+                    not t.callee.target_p().endswith("locking::lock_proposal_inputs") or len(t.args) < 4:
+                continue
+            du = du or defuse.DefUse(b)
+            o = du.origin(t.args[3])
+            while o[0] == "call" and re.search(r"::(into|from)$", o[1]) and o[2]:
+                o = o[2][0]
+            n += 1
+            name = f.p.rsplit("::", 1)[-1]
+            if o[0] == "call" and re.search(r"<.*::TargetHeight as core::ops::Add<.*>>::add$", o[1]) and \
+                    len(o[2]) == 2 and "for_blocks(" in defuse.show(o[2][1]):
+                chk.ok("LOCKEXP", "%s: inputs are locked until TargetHeight + request.for_blocks()" % name, sample=(n == 1))
+            else:
+                chk.fail("LOCKEXP", name, "%s locks its inputs until `%s`, not until the target height plus the requested "
+                         "window" % (name, defuse.show(o)[:120]), t.span.loc())
+    if n < 4:
+        chk.fail("LOCKEXP", "sites", "expected the lock_proposal_inputs calls of the four propose_* functions, found %d" % n)
+
+
+def sql_alias_siblings(chk, w):
+    """ALIAS: several queries compute the same derived column - e.g. `max_shielding_input_height`, the height
+    from which an internally received (shielded-by-us) note counts its untrusted confirmations. The column
+    feeds one Rust-side policy test, so every query that defines it must define it by the same expression:
+    a MIN where the others say MAX makes selection and balance disagree about the same note."""
+    import sqlfx
+    fx = sqlfx.SqlFx(w, extract.REPO)
+    defs = {}
+    for fid, sites in fx.sites.items():
+        f = w.fns[fid]
+        if "::tests::" in f.p or "::testing" in f.p or "::migrations::" in f.p:
+            continue
+        for text in sorted({x[3] for x in sites}):
+            flat = re.sub(r"--[^\n]*", " ", text)
+            flat = re.sub(r"\s+", " ", flat)
+            for m in re.finditer(r"([A-Za-z_]+\([^()]*\)|NULL|[A-Za-z_.]+) AS (max_shielding_input_height|min_shielding_input_trust)\b", flat):
+                expr = re.sub(r"\b[a-z_]+\.", "", m.group(1)).upper()
+                defs.setdefault(m.group(2), {}).setdefault(expr, set()).add(f.p.rsplit("::", 1)[-1])
+    n = 0
+    for alias, exprs in sorted(defs.items()):
+        real = {e: fs for e, fs in exprs.items() if e != "NULL"}
+        n += 1
+        if len(real) == 1:
+            chk.ok("ALIAS", "`%s` is defined as %s in all %d queries that compute it" % (
+                alias, list(real)[0], sum(len(v) for v in real.values())), sample=True)
+        else:
+            chk.fail("ALIAS", alias, "`%s` is defined differently by sibling queries: %s" % (
+                alias, {e: sorted(fs) for e, fs in real.items()}))
+    if n < 1:
+        chk.fail("ALIAS", "missing", "no query defining max_shielding_input_height found")
+
+
+def no_growth(chk, w):
+    """NOGROW: within the selection loop the INPUTS held for the step are always a whole query result: the list of
+    selected transparent outputs (and the shielded selection) is replaced by each gather, never grown with
+    push / extend / append. A second query returns a superset of what the first returned, so growing the list
+    with its result puts the same coin into the step twice - and Step::from_parts, which only sums, accepts
+    it. Who-may-mutate over propose_transaction: no growth call on a local whose elements are wallet inputs."""
+    roots = [f for f in w.fns.values() if re.search(r"GreedyInputSelector<DbT> as .*InputSelector>::propose_transaction$", f.p)]
+    if len(roots) != 1:
+        chk.fail("NOGROW", "missing", "GreedyInputSelector::propose_transaction not found")
+        return
+    b = roots[0].body
+    du = defuse.DefUse(b)
+
+    def recv_local(op):
+        for _ in range(6):
+            if op.kind not in ("copy", "move"):
+                return None
+            d = du.single(op.place.local)
+            if d is None or d[0] != "stmt":
+                return None
+            rv = d[2].rv
+            if rv.kind == "ref":
+                return rv.place.local
+            if rv.kind == "use":
+                op = rv.ops[0]
+                continue
+            return None
+        return None
+    INPUT_TY = re.compile(r"WalletTransparentOutput|WalletUtxo|ReceivedNote<|SpendableNotes<|ShieldedInputs<")
+    held = [i for i, (ty, _n) in enumerate(b.locals) if ty.startswith("core::vec::Vec<") and INPUT_TY.search(ty)]
+    grown = []
+    for bb, t in b.calls():
+        if b.blocks[bb].cleanup or t.callee.indirect is not None or not t.args:
+            continue
+        if re.search(r"Vec::<T, A>::(extend|push|append|insert|extend_from_slice)$|Extend<.*>>::extend$", t.callee.target_p()):
+            l = recv_local(t.args[0])
+            if l in held:
+                grown.append((l, t))
+    if not held:
+        chk.fail("NOGROW", "held", "no local list of wallet inputs found in propose_transaction")
+    elif not grown:
+        chk.ok("NOGROW", "propose_transaction: the %d local list(s) of wallet inputs are only ever assigned whole query results, "
+               "never grown" % len(held), sample=True)
+    else:
+        l, t = grown[0]
+        chk.fail("NOGROW", "propose_transaction/%s" % (b.local_name(l) or "inputs"), "the list of selected inputs `%s` is grown with "
+                 "%s: a later query's result overlaps what is already held, so an input can enter the step twice"
+                 % (b.local_name(l), t.callee.target_p().rsplit("::", 1)[-1]), t.span.loc())
 
 
 def confirmations(chk, w):
